@@ -240,7 +240,12 @@ func (c *ctlRun) checkYield(s int, k, v uint64) {
 		c.viol("iter-yields-absent-entry", fmt.Sprintf("iterator %d yielded (%#x,%d) which is not in the map", s, k, v))
 		return
 	}
-	if tr.seen[e.id] {
+	if tr.seen[e.id] && tr.cleared {
+		// recorded finding (repaired by fixes/apply/03): mapclear reuses the bucket array under a running
+		// range loop; the loop follows the sentinel overflow pointer of the last preallocated overflow
+		// bucket (or sits in a preallocated bucket that is handed out again) and sees new entries twice
+		c.viol("iter-duplicate-after-clear-in-loop", fmt.Sprintf("iterator %d yielded entry (%#x,%d), inserted after a clear() inside the loop, twice", s, k, v))
+	} else if tr.seen[e.id] {
 		c.viol("iter-duplicate", fmt.Sprintf("iterator %d yielded entry (%#x,%d) twice", s, k, v))
 	}
 	tr.seen[e.id] = true
@@ -1088,7 +1093,80 @@ func scenarioSameSizeClear(enc *json.Encoder, hint int, writesBeforeClear int, p
 	c.finish()
 }
 
+// Deterministic scenario class: a range loop is parked inside the LAST preallocated overflow
+// bucket of the bucket array when the map is cleared and refilled.  mapclear used to wipe and
+// reuse the array: makeBucketArray then stores the sentinel overflow pointer (the array base)
+// in exactly that bucket, the loop followed it into bucket 0 and produced entries inserted
+// after the clear a second time when it reached bucket 0 in its normal course.
+func scenarioIterPreallocClear(enc *json.Encoder, seed uint64, ptr bool) {
+	class := "scenario-iter-in-prealloc-overflow-clear"
+	if ptr {
+		class += "-ptr"
+	}
+	c := newCtlRunP(enc, class, false, 53, true, false, ptr, seed) // hint 53: B = 4, one preallocated overflow bucket
+	v := uint64(0)
+	uniq := uint64(0)
+	set := func(low uint16) {
+		v++
+		uniq++
+		c.do(opSet, mkKey(7, uniq, low, false, false), v)
+	}
+	for i := 0; i < 12; i++ { // one chain of 12: its overflow bucket is the preallocated one
+		set(5)
+	}
+	for i := 0; i < 20; i++ {
+		set(uint16(i))
+	}
+	last := add(c.h.buckets, (bucketShift(c.h.B)+bucketShift(c.h.B-4)-1)*uintptr(c.t.BucketSize))
+	c.do(opIterNew, 0, 0)
+	parked := false
+	for n := 0; n < 40 && !c.stop; n++ {
+		c.do(opIterNext, 0, 0)
+		if c.its[0] != nil && unsafe.Pointer(c.its[0].bptr) == last {
+			parked = true
+			break
+		}
+		if c.trk[0].done {
+			break
+		}
+	}
+	if parked {
+		c.rec.Cov["scenarioIterParkedInPrealloc"] = 1
+	}
+	c.do(opClear, 0, 0)
+	for i := 0; i < 40; i++ { // refill every bucket, bucket 0 included
+		set(uint16(i))
+	}
+	for n := 0; n < 120 && !c.stop && !c.trk[0].done; n++ {
+		c.do(opIterNext, 0, 0)
+	}
+	c.do(opDrain, 0, 0)
+	c.do(opLen, 0, 0)
+	c.finish()
+}
+
+// which mapclear the working tree has: does clear(m) take a fresh bucket array while a range loop
+// may be running (iterator flags set), or does it always wipe and reuse the array?  Model.v has
+// both (flag clearfresh); the driver selects the one that is there.
+func probeClearFresh(enc *json.Encoder) {
+	vresetArena()
+	vrnd = 99
+	t := mkCtlType(true, false, false)
+	h := MakeMap(t, 0)
+	k := uint64(1)
+	*(*uint64)(MapAssign(t, h, unsafe.Pointer(&k))) = 1
+	it := NewMapIter(t, h)
+	_ = it
+	before := h.buckets
+	MapClear(t, h)
+	enc.Encode(map[string]any{"kind": "probe", "clear_fresh": h.buckets != before})
+}
+
 func runScenarios(enc *json.Encoder) {
+	probeClearFresh(enc)
+	for sd := uint64(1); sd <= 8; sd++ {
+		scenarioIterPreallocClear(enc, 7000+sd*977, sd%2 == 0)
+	}
 	for _, hint := range []int{14, 27} {
 		for w := 0; w < 3; w++ {
 			for _, ptr := range []bool{false, true} {
@@ -1118,6 +1196,19 @@ func TestVerif(t *testing.T) {
 		return
 	case "scenarios":
 		runScenarios(enc)
+		return
+	case "replay": // re-run one recorded history (bin/check C06 --replay file)
+		var rp violRec
+		data, err := os.ReadFile(os.Getenv("VERIF_REPLAY"))
+		if err != nil || json.Unmarshal(data, &rp) != nil {
+			t.Fatal("cannot read VERIF_REPLAY")
+		}
+		probeClearFresh(enc)
+		c := newCtlRunP(enc, "replay:"+rp.Class, rp.Nil, rp.Hint, rp.Refl, rp.Upd, rp.Ptr, rp.Seed)
+		for _, o := range rp.Ops {
+			c.do(int(o[0]), o[1], o[2])
+		}
+		c.finish()
 		return
 	}
 	r := &vrng{s: seed*7919 + 17}
